@@ -124,7 +124,7 @@ def gen_case(rng, ctx, force=None):
     del_mismatch = force == "del-mismatch"
     if del_mismatch:
         force = "del"
-    want = force or rng.choice(["sub", "sub", "del", "del", "ins", "mnp-one-record", "mnp-adjacent", "mixed", "mixed", "odd", "refmismatch", "none"])
+    want = force or rng.choice(["sub", "sub", "del", "del", "ins", "mnp-one-record", "mnp-adjacent", "mixed", "mixed", "odd", "refmismatch", "none", "split", "split"])
     pool = {"sub": [k for k in keys if ">" in k[1] and len(k[1]) == 3], "del": [k for k in keys if k[1].startswith("del")],
             "ins": [k for k in keys if k[1].startswith("ins")], "mnp": [k for k in keys if ">" in k[1] and len(k[1]) > 3]}
     chosen = []
@@ -154,6 +154,32 @@ def gen_case(rng, ctx, force=None):
             records.append(with_gt(rng, r, gt, n_samples, idx))
             used_pos.add(r["pos"])
         planted.append({"key": [key[0], key[1]], "kind": kind, "gt": list(gt), "copies": copies})
+    if want == "split" and pool["sub"]:
+        # a multi-allelic site written as SEPARATE bi-allelic records at one position (the layout `bcftools norm -m-` / `vt decompose`
+        # produce): same POS and REF, one alternate each, every record a diploid genotype call of its own.  Preferably two catalogued
+        # substitutions of one base (compound heterozygous site)
+        bypos = {}
+        for k in pool["sub"]:
+            bypos.setdefault(k[0], []).append(k)
+        multi = [ks for ks in bypos.values() if len(ks) >= 2]
+        ks = sorted(rng.choice(multi))[:2] if multi and rng.random() < 0.7 else [rng.choice(pool["sub"])]
+        pos0, ref = ks[0][0], ks[0][1][0]
+        if not any(abs(pos0 + 1 - u) < 6 for u in used_pos):
+            alts = [k[1][2] for k in ks]
+            if len(alts) == 1:
+                alts.append(other_base(rng, ref, alts[0]))
+            gts = rng.choice([((0, 1), (0, 1)), ((1, 0), (0, 1)), ((0, 1), (1, 0)), ((1, 1), (0, 0)), ((0, 0), (0, 1)), ((0, 1), (0, 0)), ((0, 0), (1, 1))])
+            if rng.random() < 0.5:
+                alts, ks2 = alts[::-1], ks[::-1]
+            else:
+                ks2 = ks
+            for j, (a, gt) in enumerate(zip(alts, gts)):
+                records.append(with_gt(rng, {"pos": pos0 + 1, "ref": ref, "alts": [a]}, gt, n_samples, idx))
+                k = next((k for k in ks if k[1][2] == a), None)
+                if k is not None:
+                    planted.append({"key": [k[0], k[1]], "kind": "sub", "gt": list(gt), "copies": sum(1 for x in gt if x == 1)})
+            used_pos.add(pos0 + 1)
+            notes.append("split-records")
     lo, hi = ctx.bounds
     # a REF that differs from the gene's base (single-base REF): re-expressed against the gene
     if want == "refmismatch" or rng.random() < 0.15:
